@@ -28,3 +28,57 @@ def scan_enums(root):
     return out
 if __name__ == '__main__':
     e = scan_enums('/repo/libcnb'); print(e)
+
+
+def scan_structs(root):
+    """struct name -> list of candidate field-name lists (named-field structs), from source"""
+    out = {}
+    for dp, dn, fn in os.walk(root):
+        if '/target' in dp or '/.git' in dp:
+            continue
+        for f in fn:
+            if not f.endswith('.rs'):
+                continue
+            src = open(os.path.join(dp, f)).read()
+            src = re.sub(r'//[^\n]*', '', src)
+            for m in re.finditer(r'\bstruct\s+(\w+)\s*(?:<[^{;(]*>)?\s*(?:where[^{]*)?\{', src):
+                name = m.group(1)
+                i = m.end(); depth = 1; j = i
+                while depth and j < len(src):
+                    if src[j] == '{': depth += 1
+                    elif src[j] == '}': depth -= 1
+                    j += 1
+                body = re.sub(r'#\[[^\]]*\]', '', src[i:j - 1], flags=re.S)
+                flat = []; d = 0
+                for ch in body:
+                    if ch in '({[<': d += 1
+                    elif ch in ')}]>' : d -= 1
+                    elif d == 0: flat.append(ch)
+                fields = []
+                for part in ''.join(flat).split(','):
+                    mm = re.match(r'\s*(?:pub(?:\s*\([^)]*\))?\s+)?(\w+)\s*:', part)
+                    if mm:
+                        fields.append(mm.group(1))
+                if fields:
+                    out.setdefault(name, []).append(fields)
+    return out
+
+
+def scan_type_info(root):
+    """(struct generic defaults, type aliases): {(Struct, Param): default text}, {Alias: text}"""
+    defaults, aliases = {}, {}
+    for dp, dn, fn in os.walk(root):
+        if '/target' in dp or '/.git' in dp:
+            continue
+        for f in fn:
+            if not f.endswith('.rs'):
+                continue
+            src = open(os.path.join(dp, f)).read()
+            for m in re.finditer(r'\bstruct\s+(\w+)\s*<([^>{;]*)>', src):
+                for prm in m.group(2).split(','):
+                    mm = re.match(r'\s*(\w+)\s*(?::[^=]*)?=\s*(.+)', prm)
+                    if mm:
+                        defaults[(m.group(1), mm.group(1))] = mm.group(2).strip()
+            for m in re.finditer(r'\btype\s+(\w+)\s*=\s*([^;]+);', src):
+                aliases[m.group(1)] = m.group(2).strip()
+    return defaults, aliases
